@@ -18,9 +18,11 @@ func (t *QUIC) reapPeer(q *quic.Conn, peer *protocol.Node) {
 	defer unlock()
 
 	t.Logger.Debug("reaping cached QUIC connection to peer", zap.String("key", qKey))
-	cached, loaded := t.cachedConnections.LoadAndDelete(qKey)
-	if loaded {
-		cached.quic.CloseWithError(401, "Gone")
+	// only remove the cache entry if it is the connection being reaped: a newer connection
+	// may have been cached for this peer since (e.g. the winner of a simultaneous open), and
+	// it must neither be dropped nor closed because an older connection went away
+	if cached, loaded := t.cachedConnections.Load(qKey); loaded && cached.quic == q {
+		t.cachedConnections.Delete(qKey)
 	}
 	q.CloseWithError(401, "Gone")
 
